@@ -537,11 +537,22 @@ func (h *verifC08Hist) reload(concurrent bool) int {
 func TestVerifC08(t *testing.T) {
 	rec := verifkit.Start(t, "C08", "indexhist")
 	defer rec.Finish()
+	verifC08Run(t, rec, rec.Env.Pick(400, 6000), false)
+}
+
+// TestVerifC08Race is the thorough-tier unit built with the race detector: fewer histories, every
+// reload runs with concurrent LookupBlob/LookupBlobSize callers.
+func TestVerifC08Race(t *testing.T) {
+	rec := verifkit.Start(t, "C08", "indexrace")
+	defer rec.Finish()
+	verifC08Run(t, rec, 192, true)
+}
+
+func verifC08Run(t *testing.T, rec *verifkit.Rec, nHist int, concurrent bool) {
 	env := rec.Env
 	TestUseLowSecurityKDFParameters(t)
 	restic.TestDisableCheckPolynomial(t)
 	ctx := context.Background()
-	nHist := env.Pick(400, 1600)
 	stepKinds := map[string]int64{}
 
 	for ci := 0; ci < nHist; ci++ {
@@ -652,7 +663,7 @@ func TestVerifC08(t *testing.T) {
 			case "delete":
 				h.removeFile(h.order[rng.Intn(len(h.order))], "delete")
 			case "reload":
-				evals += h.reload(env.Thorough() && ci%4 == 0)
+				evals += h.reload(concurrent)
 				reloads++
 			}
 		}
